@@ -12,7 +12,7 @@ from tcv import families, histories, specs
 from tcv.core import Result, Violation
 from tcv.pool import pmap
 
-KINDS = ['json', 'dir', 'numpy', 'generator']
+KINDS = ['json', 'dir', 'continues', 'numpy']
 
 
 def dag_world(n, edges):
@@ -62,6 +62,9 @@ def judge(desc, spec):
             elif obs['gen'] != exp['gen']:
                 out.append(Violation(f'{name}: stored result not replaced by the recomputation',
                                      f'history {hist}: value carries generation {obs["gen"]}, expected {exp["gen"]}', case))
+        elif op[0] == 'tforce':
+            if obs.get('error'):
+                out.append(Violation(f'{name}: Task.force raised', f'history {hist}: {obs["error"]}', case))
         elif op[0] == 'cforce':
             if obs.get('error'):
                 out.append(Violation(f'{name}: Chain.force raised', f'history {hist}: {obs["error"]}', case))
